@@ -142,6 +142,16 @@ Proof.
   - destruct (seek_cur s d); auto.
 Qed.
 
+(** [run] cannot tell [bind (bind p f) g] from [bind p (fun a => bind (f a) g)] *)
+Lemma bind_bind {A B C} (p : prog A) (f : A -> prog B) (g : B -> prog C) s :
+  run (bind (bind p f) g) s = run (bind p (fun a => bind (f a) g)) s.
+Proof.
+  revert s; induction p as [a|e|x| |n k IH|q k IH|d k IH|k IH|n k IH|k IH]; intros s;
+    cbn [bind run]; auto.
+  - destruct (n =? 0); auto. destruct (splitN n (s_view s)) as [[h r]|]; auto.
+  - destruct (seek_cur s d); auto.
+Qed.
+
 Lemma run_lift {A} (r : res A) s : run (lift r) s = (r, s).
 Proof. destruct r; reflexivity. Qed.
 
